@@ -156,7 +156,7 @@ Proof.
     apply andb_true_iff in Hn. destruct Hn as [Hc Hds].
     simpl. rewrite Hc, (span_app _ _ _ Hds Hst).
     change (match ds with [] => true | _ :: _ => false end) with (is_nil ds).
-    destruct (c =? 48), (is_nil ds); simpl in *; congruence.
+    destruct (c =? 48), (is_nil ds); simpl in *; try reflexivity; discriminate.
 Qed.
 
 (* ---- parse_prerelease, parse_build ------------------------------------------------------ *)
@@ -192,6 +192,11 @@ Proof.
   destruct v as [|c r]; [reflexivity|]. zlit c 43.
   unfold parse_build. rewrite build_check_model. reflexivity.
 Qed.
+
+Lemma parse_build_cons body :
+  parse_build (43 :: body) =
+  if forallb build_ident (split_on 46 body) then Some (43 :: body, []) else None.
+Proof. rewrite parse_build_eq. reflexivity. Qed.
 
 (* the shapes of the prerelease and build fields *)
 Definition pre_str (pre : str) : Prop :=
@@ -325,7 +330,7 @@ Lemma pre_step_complete pre b :
 Proof.
   intros [->|(body & -> & Hi)] Hb.
   - apply (build_str_stops b Hb).
-  - unfold pre_step. simpl app. rewrite Z.eqb_refl.
+  - simpl app. unfold pre_step. rewrite Z.eqb_refl.
     apply parse_prerelease_complete; [exact Hi|]. apply (build_str_stops b Hb).
 Qed.
 
@@ -335,7 +340,7 @@ Proof.
   unfold build_step. destruct v7 as [|c r].
   - intros H. inversion H. split; [reflexivity|now left].
   - destruct (Z.eqb_spec c 43) as [->|].
-    + rewrite parse_build_eq, Z.eqb_refl.
+    + rewrite parse_build_cons.
       destruct (forallb build_ident (split_on 46 r)) eqn:Ei; [|discriminate].
       intros H. inversion H. split; [reflexivity|]. right. eauto.
     + intros H. inversion H.
@@ -344,7 +349,7 @@ Qed.
 Lemma build_step_complete b : build_str b -> build_step b = Some (b, []).
 Proof.
   intros [->|(body & -> & Hi)]; [reflexivity|].
-  unfold build_step. rewrite Z.eqb_refl, parse_build_eq, Z.eqb_refl, Hi. reflexivity.
+  unfold build_step. rewrite Z.eqb_refl, parse_build_cons, Hi. reflexivity.
 Qed.
 
 Lemma pre_build_stops_digit pre b : pre_str pre -> build_str b -> stops is_digit (pre ++ b) = true.
@@ -415,3 +420,34 @@ Proof. split; [apply parse_sound | apply parse_complete]. Qed.
 
 Lemma parse_pre_str v p : parse v = Some p -> pre_str (p_prerelease p).
 Proof. intros H. apply parse_sound in H. destruct H; simpl; auto; now left. Qed.
+
+(* ---- Canonical in terms of the parsed fields ------------------------------------------------ *)
+
+Lemma take_app_len (x b : str) : take (len (x ++ b) - len b) (x ++ b) = x.
+Proof.
+  unfold take. rewrite len_app. replace (len x + len b - len b) with (len x) by lia.
+  unfold len. rewrite Nat2Z.id, firstn_app, Nat.sub_diag, firstn_all. simpl. apply app_nil_r.
+Qed.
+
+Lemma full_assoc (M m pt pre b : str) :
+  118 :: M ++ 46 :: m ++ 46 :: pt ++ pre ++ b = (118 :: M ++ 46 :: m ++ 46 :: pt ++ pre) ++ b.
+Proof.
+  simpl. f_equal. rewrite <- app_assoc. f_equal. simpl. f_equal.
+  rewrite <- app_assoc. f_equal. simpl. f_equal. now rewrite <- app_assoc.
+Qed.
+
+Lemma canonical_parts v p :
+  parse v = Some p ->
+  canonical v = 118 :: p_major p ++ 46 :: p_minor p ++ 46 :: p_patch p ++ p_prerelease p.
+Proof.
+  intros H. unfold canonical. rewrite H. apply parse_sound in H.
+  destruct H as [M HM|M m HM Hm|M m pt pre b HM Hm Hpt Hpre Hb]; cbn [p_build p_short p_major p_minor p_patch p_prerelease].
+  - reflexivity.
+  - simpl. now rewrite <- app_assoc.
+  - destruct b as [|c b'].
+    + now rewrite !app_nil_r.
+    + rewrite full_assoc. apply take_app_len.
+Qed.
+
+Lemma canonical_invalid v : parse v = None -> canonical v = [].
+Proof. intros H. unfold canonical. now rewrite H. Qed.
